@@ -56,6 +56,14 @@ def run(c):
         "the envelope sender is not an input of the model: it selects the source block (routing is property C04; the "
         "oracle expects the null reverse-path at default_source, a sender of s<k>.example / its IDN spelling at source "
         "block k) and is an argument of the checks",
+        "action directives: strconv.Atoi is mirrored for an optional sign followed by decimal digits without overflow "
+        "(what the generated reply codes / enhanced codes contain); the error a refused directive is reported with is not "
+        "compared, only that the configuration is refused; the custom reply (code / enhanced code / text) is compared as "
+        "parsed, not as it appears on the wire (the reply texts are C16's business)",
+        "how the client spells the domain of a recipient (upper / mixed case) is not an input of the model: the endpoint "
+        "normalises it (address.CleanDomain, as the harness does) before the pipeline sees the address; the LMTP "
+        "per-command bookkeeping (one failure status per accepted RCPT command of an address, a command without one is "
+        "answered 250) is the harness's copy of endpoint/smtp statusWrapper",
     ]
     return c.finish(
         rule="random pipelines: 1-4 scripted checks (thorough: up to 7) placed in 1-3 of global / source / 1-3 destination blocks "
@@ -96,7 +104,26 @@ def run(c):
         "interleaving (own op lines): what a transaction shows must be the same (C06/schedule-dependent); every oracle "
         "rule is applied to every transaction on its own (the calls a message's state objects got, the deliveries made "
         "for it), a state object must only be asked while a command of its message runs (C06/cross-transaction-call) and "
-        "be shown the sender, recipients and body of its message (C06/foreign-message-shown); distinct = distinct op lines",
+        "be shown the sender, recipients and body of its message (C06/foreign-message-shown); "
+        "round 8: the FailAction of every scripted check comes out of the REAL directive parser (ParseActionDirective; in "
+        "multi ops `<x>_action` directives inside the check's configuration block through config.Map and "
+        "FailActionDirective): 12% of the run ops and 10% of the multi ops write the three actions as generated directive "
+        "lines (op token d=: lower-case / Capitalised / UPPER / mixed-case word, unknown words, no argument, optional "
+        "custom reply code / enhanced code / text - well-formed, malformed, surplus), half of the tables as documented, the "
+        "others with one deviating directive and a verdict that uses it at a random stage; a configuration the parser "
+        "refuses is `load=refused` (the model's parseAction must agree), an accepted one must name a documented action "
+        "(C06/invalid-action-accepted) and the run must enforce the meaning of the lower-case word (the verdict letters of "
+        "the script are the documented meanings); TestVerifC06Action: ~200 directive lines, each accepted one used by a "
+        "failing check at the connection, sender, recipient and body stage of a one-check pipeline; "
+        "every scope (global, source, each destination block; parser-built pipelines too) independently has or has not a "
+        "`modify` directive (block spec /n, source spec ~n, token nm=), in 35% of the cases with a recipient in such a block "
+        "a check of that block rejects / quarantines the body; the body-stage calls of every applicable check are counted "
+        "(exactly one per message); 14% of the run ops and 10% of the transactions of multi ops name one recipient in two "
+        "RCPT commands (identical spelling or domain in upper / mixed case, any recipient in 6%), mostly with a check "
+        "rejecting the body or DMARC reject; the LMTP driver keeps the endpoint's per-command books (a failure status uses "
+        "up the oldest accepted command of the address, a command without one is answered 250): a refusal of DATA before "
+        "the targets must refuse EVERY accepted command, the per-command answers (st=) are compared with the model and "
+        "between the two body paths; distinct = distinct op lines",
         explanation="theorems over all configurations, envelopes, both body paths and all completion orders; model tied to "
         "check_runner.go / msgpipeline.go by differential runs on the real pipeline and by regenerated call lists (T1)",
         search=search,
